@@ -181,6 +181,39 @@ fn summarize(errs: &[midnight_proofs::dev::VerifyFailure]) -> String {
     s.join(" | ")
 }
 
+/// A from-scratch case as a subject of the region-local alternative-witness search.
+pub struct FsSubject<'a, C: FsCase>(pub &'a C);
+
+impl<'a, C: FsCase> vgad::laws::Subject for FsSubject<'a, C> {
+    fn s_key(&self) -> String {
+        self.0.key()
+    }
+    fn s_op(&self) -> String {
+        self.0.op()
+    }
+    fn s_traced(&self, k: u32) -> Option<(MockProver<F>, Vec<String>, Vec<verif::TraceEntry>)> {
+        LOG.with(|e| *e.borrow_mut() = Log::default());
+        verif::set_plan(vec![]);
+        verif::set_tracing(true);
+        let circuit = FsCircuit(self.0.clone());
+        let r = catch(|| MockProver::run(k, &circuit, vec![vec![], vec![]]));
+        let (names, trace) = verif::take_trace();
+        verif::reset();
+        LOG.with(|e| *e.borrow_mut() = Log::default());
+        match r {
+            Ok(Ok(p)) => Some((p, names, trace)),
+            _ => None,
+        }
+    }
+    fn s_replay(&self, k: u32, plan: Vec<(u64, Fault, Mode)>) -> (Outcome, Vec<Vec<F>>, Vec<Vec<F>>) {
+        let r = run_once(self.0, k, plan, false);
+        (r.outcome, r.ins, r.outs)
+    }
+    fn s_judge(&self, ins: &[Vec<F>], outs: &[Vec<F>]) -> Judgement {
+        self.0.judge(ins, outs)
+    }
+}
+
 /// Cell kinds (region name, column, offset) of one traced honest synthesis.
 pub fn trace_kinds<C: FsCase>(case: &C, k: u32) -> Option<Vec<(String, Vec<u64>)>> {
     LOG.with(|e| *e.borrow_mut() = Log::default());
